@@ -544,6 +544,68 @@ def partB(unit):
                 except Exception as e:  # noqa: BLE001
                     import traceback
                     bad('resume-raises:' + type(e).__name__, 'second resume raised: %s' % traceback.format_exc()[-1200:], dict(resume_from=[0, 0]))
+        # graceful abort: a real SIGINT arrives before the k-th checkpoint of a run that does NOT save regularly
+        # (handle_abort_signal sets a flag, save_at_checkpoint saves and raises KeyboardInterrupt); for every k the
+        # file left behind must be complete and the resumed run must equal the uninterrupted one
+        import signal
+        from tenpy.simulations.simulation import Simulation
+        from tenpy.tools.misc import find_subclass
+        Base = find_subclass(Simulation, simcls)
+        for k in range(len(store)):
+            ev += 1
+            calls = [0]
+
+            def save_at_checkpoint(self, alg_engine, _k=k, _calls=calls):
+                if _calls[0] == _k:
+                    os.kill(os.getpid(), signal.SIGINT)
+                _calls[0] += 1
+                return Base.save_at_checkpoint(self, alg_engine)
+
+            cls3 = type('Sigint' + simcls, (Base,), {'save_at_checkpoint': save_at_checkpoint, '__module__': __name__})
+            globals()[cls3.__name__] = cls3
+            p3 = copy.deepcopy(params)
+            p3['save_every_x_seconds'] = None
+            out3 = os.path.join(wd, 'sigint%d.%s' % (k, fmt))
+            p3['output_filename'] = out3
+            case = dict(resume_from=[k], sigint=True)
+            interrupted = False
+            import contextlib
+            import io
+            try:
+                sim3 = cls3(p3)
+                with contextlib.redirect_stderr(io.StringIO()):  # (the handler prints its notice to stderr)
+                    with sim3:
+                        sim3.run()
+            except KeyboardInterrupt:
+                interrupted = True
+            except Exception as e:  # noqa: BLE001
+                import traceback
+                bad('sigint:run-raises:' + type(e).__name__, 'run with SIGINT before checkpoint %d raised: %s' % (k, traceback.format_exc()[-1200:]), case)
+                continue
+            if signal.getsignal(signal.SIGINT) is not signal.default_int_handler and getattr(signal.getsignal(signal.SIGINT), '__self__', None) is sim3:
+                bad('sigint:handler-not-restored', 'the SIGINT handler of the simulation is still installed after the with-block', case)
+                signal.signal(signal.SIGINT, signal.default_int_handler)
+            if calls[0] <= k:
+                break  # this run has fewer algorithm checkpoints than saves: no signal was sent, nothing left to enumerate
+            if not interrupted:
+                bad('sigint:not-aborted', 'SIGINT before checkpoint %d: the run continued to the end instead of saving and aborting at the checkpoint' % k, case)
+                continue
+            keys.add('B:%s:%s:sigint%d' % (name, fmt, k))
+            try:
+                ck = hdf5_io.load(out3)
+                ok = isinstance(ck, dict) and not ck.get('finished_run', False) and 'resume_data' in ck and 'psi' in ck
+            except Exception as e:  # noqa: BLE001
+                ck, ok = None, False
+            if not ok:
+                bad('sigint:no-complete-file', 'after the graceful abort at checkpoint %d the output file is missing / not loadable / without resume data' % k, case)
+                continue
+            try:
+                res = resume_from_checkpoint(filename=out3, update_sim_params=dict(output_filename=os.path.join(wd, 'sigres%d.%s' % (k, fmt))))
+            except Exception as e:  # noqa: BLE001
+                import traceback
+                bad('resume-raises:' + type(e).__name__, 'resume after a graceful abort (SIGINT) at checkpoint %d raised: %s' % (k, traceback.format_exc()[-1200:]), case)
+                continue
+            compare(res, 'aborted by SIGINT at checkpoint %d of %d, then resumed' % (k, len(store)), case)
     except Exception as e:  # noqa: BLE001
         import traceback
         bad('exception:' + type(e).__name__, traceback.format_exc()[-1500:], dict(resume_from=[]))
